@@ -15,11 +15,27 @@ def wh(span):
     return "%s:%d:%d" % (span["file"], span["line"], span["col"])
 
 
-def inherited_assumptions(F, fn):
+_INHERIT = {}
+
+
+def inherited_assumptions(F, fn, _stack=()):
     """Entry facts of a private function = intersection over all its call sites of the caller facts that can be
-    expressed over the callee's parameters.  Only for functions that are not reachable from outside the crate."""
+    expressed over the callee's parameters (and over the pointees of its reference parameters).  Callers that are private
+    themselves are analysed under their own inherited facts.  Only for functions not reachable from outside the crate."""
     if fn.get("reachable_pub", True) or fn["kind"] == "Closure":
         return ()
+    key = (id(F), fn["id"])
+    if key in _INHERIT:
+        return _INHERIT[key]
+    if fn["id"] in _stack:
+        return ()
+    res = _inherited(F, fn, _stack + (fn["id"],))
+    if not _stack:
+        _INHERIT[key] = res
+    return res
+
+
+def _inherited(F, fn, _stack):
     prog = program(F)
     sites = []
     for caller in F.all_fns():
@@ -35,13 +51,19 @@ def inherited_assumptions(F, fn):
         return ()
     common = None
     for caller in {c["id"]: c for c in sites}.values():
-        an = analyze_fn(F, caller)
+        an = analyze_fn(F, caller, inherited_assumptions(F, caller, _stack))
         for cs in an.calls():
             if (cs.callee.get("resolved_id") or cs.callee.get("id")) != fn["id"]:
                 continue
             if cs.block not in an.entry:
                 continue  # infeasible call site
             mapping = {a: T.param(i + 1) for i, a in enumerate(cs.args)}
+            for i, pb in enumerate(getattr(cs, "pointee_before", None) or []):
+                if pb is not None and pb not in mapping:
+                    mapping[pb] = T.deref(T.param(i + 1))     # what a reference argument points to when the call is made
+            for i, a in enumerate(cs.args):
+                if a.op == "refval" and a.args[0] not in mapping:
+                    mapping[a.args[0]] = T.deref(T.param(i + 1))
             out = set()
             for f in cs.facts:
                 g = _rewrite_fact(f, mapping)
